@@ -435,6 +435,8 @@ Proof.
     specialize (H eq_refl). discriminate H.
   - specialize (H (ex "b") [ex "C"] (or_intror (or_introl eq_refl)) (or_introl eq_refl)). vm_compute in H.
     specialize (H eq_refl). discriminate H.
+Qed.
+
 (** ** SHAPE-MAP runs ([Model.RunMap.run_shapes_map]).  [I] is the dictionary
     C10's tracker model returns ([node -> keys], a key being a class IRI or a
     label [<iri>]); no hypothesis on it, on the specification or on the
